@@ -686,6 +686,9 @@ VOCAB_PROPS = {
     "resolve": ("C10", "C11", "C19"),
     "inherit": ("C07", "C17"),
     "arith": ("C03", "C12"),
+    "hierarchy": ("C07",),
+    "render": ("C04", "C11", "C16"),
+    "equiv": ("C20",),
 }
 WITNESS_PROPS = {"C07", "C01", "C02", "C03", "C04", "C05", "C06", "C08", "C10", "C11", "C12", "C14", "C15", "C16", "C17", "C19", "C20"}
 
